@@ -24,6 +24,7 @@ import (
 	"math"
 	"net/http"
 	"runtime"
+	"sort"
 	"strconv"
 	"strings"
 	"time"
@@ -708,7 +709,18 @@ func (u *connectStreamingUnmarshaler) Unmarshal(message any) *Error {
 	if err := json.Unmarshal(env.Data.Bytes(), &end); err != nil {
 		return errorf(CodeInternal, "unmarshal end stream message: %w", err)
 	}
-	u.trailer = end.Trailer
+	// JSON object keys arrive in whatever casing the peer chose; http.Header
+	// lookups only work on canonical keys.
+	u.trailer = make(http.Header, len(end.Trailer))
+	keys := make([]string, 0, len(end.Trailer))
+	for key := range end.Trailer {
+		keys = append(keys, key)
+	}
+	sort.Strings(keys)
+	for _, key := range keys {
+		canonical := http.CanonicalHeaderKey(key)
+		u.trailer[canonical] = append(u.trailer[canonical], end.Trailer[key]...)
+	}
 	u.endStreamErr = (*Error)(end.Error)
 	if u.endStreamErr != nil && u.endStreamErr.code == 0 {
 		// An error without a usable code is still an error: never report it
